@@ -4,7 +4,7 @@ CONSTANTS
   Methods = {"PUT", "POST"}
   MaxNth = 6
   WithBadB64 = TRUE
-  MxOld = {"none", "m1"}
+  MxOld = {"m1"}
   GwOld = {"none", "g1"}
   AnchorFlows = {}
   Paths <- PathsMC
